@@ -1,4 +1,5 @@
 //! Case model and decoders (generators) for C16.
+pub use super::net::Accept;
 use super::svc::{Kind, Plan, Shape};
 use crate::gen::message as gm;
 use crate::gen::name::{self as gn, Labels};
@@ -303,6 +304,59 @@ pub fn tcp_plan(u: &mut Unstructured, thorough: bool, max_multi: usize) -> Plan 
 /// Hostile message bytes with tags. IDs (first two octets) are forced into
 /// `0x8000 | k` so that no plan applies.
 pub fn hostile(u: &mut Unstructured, k: u16) -> (Vec<u8>, Vec<&'static str>) {
+    hostile_ext(u, k, false)
+}
+
+/// `ext` (the `*_hist` sub-checks; the decoding without it is frozen because
+/// replay files depend on it) adds two dimensions: the OPT record of the
+/// many-questions family advertises any size, and the header of any family
+/// may get its QR bit set afterwards (messages with QR set are answered by
+/// the transports themselves, bypassing service and middleware).
+pub fn hostile_ext(u: &mut Unstructured, k: u16, ext: bool) -> (Vec<u8>, Vec<&'static str>) {
+    if ext && byte(u) >= 208 {
+        // big question section (a few long names or many short ones) x
+        // header (query / QR set / other opcode) x OPT (none / any size): the
+        // responses to these echo the question section, whoever builds them
+        let mut flags = if flag(u) { 0x0100u16 } else { 0 };
+        let mut tags = vec!["big-question-section"];
+        match pick(u, 4) {
+            0 => {}
+            1 => {
+                flags |= 0x1000;
+                tags.push("opcode-other");
+            }
+            _ => {
+                flags |= 0x8000;
+                tags.push("qr-twist");
+            }
+        }
+        let mut a = Asm::new(0x8000 | k, flags);
+        let opt = if byte(u) >= 192 { None } else { Some([4096u16, 65535, 1232, 512, 600, 1024, 0, 2000][pick(u, 8)]) };
+        let n = [1usize, 2, 3, 4, 6, 60, 110, 150][pick(u, 8)];
+        let long = [255usize, 245, 200, 120][pick(u, 4)];
+        let roots = flag(u);
+        for i in 0..n {
+            if n <= 6 {
+                // a name of `long` octets on the wire
+                let mut name = vec![];
+                let mut left = long - 1;
+                while left >= 2 {
+                    let l = (left - 1).min(63);
+                    name.push(vec![b'a' + (i % 26) as u8; l]);
+                    left -= l + 1;
+                }
+                a.question(&name, 1, 1);
+            } else if roots {
+                a.question(&[], 1, 1);
+            } else {
+                a.question(&[vec![b'a' + (i % 26) as u8; 1 + i % 3]], 1, 1);
+            }
+        }
+        if let Some(sz) = opt {
+            a.record(3, &[], OPT, sz, 0, &[]);
+        }
+        return (a.buf, tags);
+    }
     let (mut b, mut tags) = match pick(u, 12) {
         0 => {
             let n = pick(u, 12);
@@ -388,7 +442,8 @@ pub fn hostile(u: &mut Unstructured, k: u16) -> (Vec<u8>, Vec<&'static str>) {
                 }
             }
             if flag(u) {
-                a.record(3, &[], OPT, [512u16, 1232, 4096][pick(u, 3)], 0, &[]);
+                let sz = if ext { [512u16, 1232, 4096, 65535, 600, 1024][pick(u, 6)] } else { [512u16, 1232, 4096][pick(u, 3)] };
+                a.record(3, &[], OPT, sz, 0, &[]);
             }
             (a.buf, vec!["many-questions"])
         }
@@ -418,6 +473,10 @@ pub fn hostile(u: &mut Unstructured, k: u16) -> (Vec<u8>, Vec<&'static str>) {
     if b.len() > 65535 {
         b.truncate(65535);
     }
+    if ext && b.len() >= 12 && pick(u, 3) == 2 && b[2] & 0x80 == 0 {
+        b[2] |= 0x80;
+        tags.push("qr-twist");
+    }
     if tags.is_empty() {
         tags.push("hostile");
     }
@@ -430,20 +489,39 @@ pub fn hostile(u: &mut Unstructured, k: u16) -> (Vec<u8>, Vec<&'static str>) {
 pub enum What {
     Wf { req: WfReq, plan: Plan, sentinel: bool },
     Hostile { bytes: Vec<u8>, tags: Vec<&'static str> },
+    /// not a datagram: `DgramServer::reconfigure` with this response size
+    /// limit, called once everything sent so far has been received and
+    /// followed by 1 ms of virtual time (so that the command is processed
+    /// before the next datagram arrives)
+    Reconf { cfg: Option<u16> },
 }
 
 #[derive(Clone, Debug)]
 pub struct UItem {
     pub gap_ms: u32,
     pub addr: SocketAddr,
+    /// the response size limit configured when this datagram is received
+    pub cfg: Option<u16>,
     pub what: What,
 }
 
 #[derive(Clone, Debug)]
 pub struct UdpCase {
     pub cookies: bool,
+    /// the limit the server is created with
     pub cfg: Option<u16>,
+    /// size of the receive buffers (`BufSource::create_buf`); 1024 is
+    /// `VecBufSource`
+    pub buf: usize,
+    /// the socket is not ready for the first send attempt of every response
+    pub send_pending: bool,
     pub items: Vec<UItem>,
+}
+
+impl UdpCase {
+    pub fn n_datagrams(&self) -> usize {
+        self.items.iter().filter(|i| !matches!(i.what, What::Reconf { .. })).count()
+    }
 }
 
 pub const CFGS: [Option<u16>; 8] = [Some(1232), None, Some(512), Some(4096), Some(513), Some(1231), Some(600), Some(4095)];
@@ -455,33 +533,62 @@ fn addr(i: usize) -> SocketAddr {
 /// Decoding does not depend on the tier (replay files must decode the same
 /// everywhere): whether a scenario is a big one is part of the input.
 pub fn udp_case(u: &mut Unstructured) -> UdpCase {
+    udp_case_ext(u, false)
+}
+
+pub const BUFS: [usize; 6] = [1024, 1024, 4096, 65535, 1500, 700];
+
+/// `ext` (sub-check `dgram_hist`): additionally the receive buffer size, a
+/// socket that is not ready for the first send attempt, runtime
+/// reconfigurations of the response size limit between the datagrams, and
+/// the extra hostile dimensions of `hostile_ext`. Without `ext` the decoding
+/// is the frozen one of sub-check `dgram` (replay files depend on it).
+pub fn udp_case_ext(u: &mut Unstructured, ext: bool) -> UdpCase {
     let thorough = chance(u, 24);
     let cookies = chance(u, 100);
-    let cfg = CFGS[pick(u, CFGS.len())];
+    let cfg0 = CFGS[pick(u, CFGS.len())];
+    let (buf, send_pending, reconf_pm) = if ext { (BUFS[pick(u, BUFS.len())], byte(u) >= 192, [0u8, 40, 40, 90][pick(u, 4)]) } else { (1024, false, 0) };
+    let mut cfg = cfg0;
     let n = 1 + pick(u, if thorough { 10 } else { 6 });
     let mut items = vec![];
     let mut next_id = 0x0101u16;
     let mut hk = 1u16;
     for _ in 0..n {
         let gap_ms = [0u32, 0, 0, 1, 40, 700][pick(u, 6)];
+        if ext && reconf_pm > 0 && chance(u, reconf_pm) {
+            cfg = CFGS[pick(u, CFGS.len())];
+            let i = items.len();
+            items.push(UItem { gap_ms, addr: addr(i), cfg, what: What::Reconf { cfg } });
+        }
         if chance(u, 70) {
-            let (bytes, tags) = hostile(u, hk);
+            let (bytes, tags) = hostile_ext(u, hk, ext);
             hk += 1;
             let i = items.len();
-            items.push(UItem { gap_ms, addr: addr(i), what: What::Hostile { bytes, tags } });
+            items.push(UItem { gap_ms, addr: addr(i), cfg, what: What::Hostile { bytes, tags } });
             let i = items.len();
             let req = sentinel(next_id, flag(u));
             next_id += 1;
-            items.push(UItem { gap_ms: [0u32, 0, 5][pick(u, 3)], addr: addr(i), what: What::Wf { req, plan: Plan::default(), sentinel: true } });
+            items.push(UItem { gap_ms: [0u32, 0, 5][pick(u, 3)], addr: addr(i), cfg, what: What::Wf { req, plan: Plan::default(), sentinel: true } });
         } else {
-            let req = wf_req(u, next_id);
+            let mut req = wf_req(u, next_id);
+            // a well-formed request is one the server receives completely:
+            // what does not fit the receive buffer is cut off by the socket
+            // (three big padding options exceed 1024 octets)
+            while req.bytes().len() > buf {
+                match &mut req.edns {
+                    Some(e) if !e.options.is_empty() => {
+                        e.options.pop();
+                    }
+                    _ => break,
+                }
+            }
             next_id += 1;
             let plan = udp_plan(u, &req, cfg, thorough);
             let i = items.len();
-            items.push(UItem { gap_ms, addr: addr(i), what: What::Wf { req, plan, sentinel: false } });
+            items.push(UItem { gap_ms, addr: addr(i), cfg, what: What::Wf { req, plan, sentinel: false } });
         }
     }
-    UdpCase { cookies, cfg, items }
+    UdpCase { cookies, cfg: cfg0, buf, send_pending, items }
 }
 
 //------------ TCP case ----------------------------------------------------------
@@ -512,6 +619,8 @@ pub struct TItem {
 pub struct Conn {
     pub start_ms: u32,
     pub addr: SocketAddr,
+    /// how the establishment of the connection goes on the server side
+    pub accept: Accept,
     pub items: Vec<TItem>,
 }
 
@@ -521,6 +630,12 @@ pub struct TcpCase {
     pub idle_ms: u64,
     pub max_queued: usize,
     pub cap: usize,
+    /// `StreamServer::reconfigure` at this virtual time with a configuration
+    /// that differs only in `max_concurrent_connections` (100 -> 90; at most
+    /// 7 connections exist): must not be observable
+    pub reconf_at_ms: Option<u32>,
+    /// a pre-connect hook (that does nothing) is installed
+    pub hook: bool,
     pub conns: Vec<Conn>,
 }
 
@@ -549,18 +664,29 @@ fn splits(u: &mut Unstructured, len: usize) -> (Vec<usize>, u32) {
 }
 
 pub fn tcp_case(u: &mut Unstructured) -> TcpCase {
+    tcp_case_ext(u, false)
+}
+
+/// `ext` (sub-check `stream_hist`): additionally how the establishment of
+/// each connection goes (`AsyncAccept::Future` ready / after a while / never
+/// / error, `poll_accept` error), a no-op runtime reconfiguration, a
+/// pre-connect hook, and the extra hostile dimensions of `hostile_ext`.
+/// Without `ext` the decoding is the frozen one of sub-check `stream`.
+pub fn tcp_case_ext(u: &mut Unstructured, ext: bool) -> TcpCase {
     let thorough = chance(u, 24);
     let cookies = chance(u, 100);
     let idle_ms = [30_000u64, 30_000, 1_000, 200][pick(u, 4)];
     let small_queue = chance(u, 32);
     let queue_choice = [10usize, 10, 1, 2, 3, 64][pick(u, 6)];
     let cap = [65536usize, 4096, 64, 7, 1][pick(u, 5)];
+    let (reconf_at_ms, hook) = if ext { (if flag(u) { Some([0u32, 1, 35, 160, 450][pick(u, 5)]) } else { None }, flag(u)) } else { (None, false) };
     let nconn = 1 + pick(u, 3);
     let mut next_id = 0x0101u16;
     let mut hk = 1u16;
     let mut conns: Vec<Conn> = vec![];
     let mut extra: Vec<Conn> = vec![];
     for c in 0..nconn {
+        let accept = if ext { [Accept::Ready, Accept::Ready, Accept::Ready, Accept::Delay(1), Accept::Delay(40), Accept::Never, Accept::Never, Accept::Fail, Accept::Refused, Accept::Delay(300)][pick(u, 10)] } else { Accept::Ready };
         let n = 1 + pick(u, if thorough { 14 } else { 7 });
         let mut items = vec![];
         for _ in 0..n {
@@ -574,7 +700,7 @@ pub fn tcp_case(u: &mut Unstructured) -> TcpCase {
                 items.push(TItem { gap_ms, splits: s, chunk_gap_ms: g, what: TWhat::Wf { req, plan, sentinel: false } });
             } else if sel < 15 {
                 // hostile with some framing
-                let (m, mut tags) = hostile(u, hk);
+                let (m, mut tags) = hostile_ext(u, hk, ext);
                 let mut id = if m.len() >= 12 { Some(0x8000 | hk) } else { None };
                 let hk_this = hk;
                 let mut full = false;
@@ -644,9 +770,9 @@ pub fn tcp_case(u: &mut Unstructured) -> TcpCase {
                 break;
             }
         }
-        let doomed = items.iter().any(|i| matches!(i.what, TWhat::Abort | TWhat::HalfClose | TWhat::Hostile { doomed: true, .. }));
+        let doomed = accept.dead() || items.iter().any(|i| matches!(i.what, TWhat::Abort | TWhat::HalfClose | TWhat::Hostile { doomed: true, .. }));
         let start_ms = [0u32, 0, 1, 30][pick(u, 4)];
-        conns.push(Conn { start_ms, addr: SocketAddr::from(([198, 51, 100, 1 + c as u8], 20000 + c as u16)), items });
+        conns.push(Conn { start_ms, addr: SocketAddr::from(([198, 51, 100, 1 + c as u8], 20000 + c as u16)), accept, items });
         if doomed {
             // the sentinel goes to a fresh connection, after the hostile one
             let req = sentinel(next_id, flag(u));
@@ -655,6 +781,7 @@ pub fn tcp_case(u: &mut Unstructured) -> TcpCase {
             extra.push(Conn {
                 start_ms: 400,
                 addr: SocketAddr::from(([198, 51, 100, 100 + k as u8], 30000 + k as u16)),
+                accept: Accept::Ready,
                 items: vec![TItem { gap_ms: 0, splits: vec![], chunk_gap_ms: 0, what: TWhat::Wf { req, plan: Plan::default(), sentinel: true } }],
             });
         }
@@ -678,7 +805,7 @@ pub fn tcp_case(u: &mut Unstructured) -> TcpCase {
         .max()
         .unwrap_or(1);
     let max_queued = if small_queue { queue_choice } else { queue_choice.max(need) };
-    TcpCase { cookies, idle_ms, max_queued, cap, conns }
+    TcpCase { cookies, idle_ms, max_queued, cap, reconf_at_ms, hook, conns }
 }
 
 #[allow(unused)]
